@@ -44,6 +44,15 @@ def run(ctx):
             cfg = tu.gen_config(ctx.rng, joint=True)
             if cfg["beta"] == 0:
                 cfg["beta"] = 5.0
+            if i % 3 == 1:
+                # the DOCUMENTED way to keep series independent: the caller passes beta x boundary mask as a per-pair
+                # vector; one member series has exactly W rows (a single stacked window, isolated by two zeros)
+                cfg["masked_vector"] = True
+                cfg["lens"][ctx.rng.randrange(len(cfg["lens"]))] = cfg["W"]
+                if len(cfg["lens"]) == 1:
+                    cfg["lens"].append(cfg["W"] + 40)
+                if sum(l - cfg["W"] + 1 for l in cfg["lens"]) < 12 * cfg["K"]:
+                    cfg["lens"].append(cfg["W"] + 16 * cfg["K"])
             cfgs.append(cfg)
     outs = ctx.driver.run([f"mask {show_list(t)}" for t in tuples])
     for t, out in zip(tuples, outs):
@@ -69,8 +78,15 @@ def run(ctx):
             captured["stacked"] = np.array(stacked, copy=True)
             captured["beta_arg"] = args.label_switching_cost
             return orig_fit(args, stacked)
+        cfg_run = cfg
+        if cfg.get("masked_vector"):
+            lens0 = [l - cfg["W"] + 1 for l in cfg["lens"]]
+            m0 = np.ones(sum(lens0))
+            m0[np.cumsum(lens0)[:-1] - 1] = 0
+            cfg_run = dict(cfg, beta=float(cfg["beta"]) * m0)
+            ctx.count("runs_with_caller_masked_vector")
         with tu.patched(main_loop, "fit_stacked_data", fit):
-            res, tr, err, series = tu.execute(cfg, record_states=False)
+            res, tr, err, series = tu.execute(cfg_run, record_states=False)
         ctx.count(f"series:{len(cfg['lens'])}")
         if err is not None:
             ctx.count("runs_raised:" + type(err).__name__)
